@@ -7,8 +7,10 @@ from vlib.qtyops import frs
 
 PID = 'C04'
 PROPERTY_FILE = 'Properties/C04.v'
+# generated model parts (translate/) this property's model / proofs really depend on
+GEN_DEPS = ['QuantityImpl']
 MODEL_TARGETS = Q.MODEL_TARGETS
-PROOF_TARGETS = ['Proofs/C03C04Proofs.vo']
+PROOF_TARGETS = ['Proofs/GenQuantityEq.vo', 'Proofs/C03C04Proofs.vo']
 COQ_HEADER = Q.COQ_HEADER
 COQ_CHECK = Q.COQ_CHECK
 ISOLATE = True
